@@ -181,7 +181,7 @@ ScrubC(e) ==
                  ELSE IF errs # {} THEN "raise:ValueError" ELSE "ok"
       want == CatTexts(dens, 1)
   IN Cl("C14.outcome", claim, claim => e.out = wantErr)
-  \o IF e.out # "ok" \/ wantErr # "ok" \/ ~claim THEN None ELSE
+  \o IF e.out # "ok" \/ wantErr # "ok" \/ ~claim \/ e.a.empty = 1 THEN None ELSE
      LET got == [i \in DOMAIN e.o.res |-> TextTable[e.o.res[i]]] IN
         Cl("C14.same_settings", TRUE, got = want)
      \o Cl("C14.same_rendering", TRUE, e.o.q = e.o.rep_q)
